@@ -820,6 +820,10 @@ class DynamicBayesianNetwork(DAG):
                     values=cpd.get_values(),
                     evidence=new_vars[1:],
                     evidence_card=cpd.cardinality[1:],
+                    state_names={
+                        new: cpd.state_names[old]
+                        for new, old in zip(new_vars, cpd.variables)
+                    },
                 )
             )
 
